@@ -150,7 +150,11 @@ class M:
                     L.append(f"{n}.set_brightness({self.ival(0, 255)})")
             elif o == "blink":
                 t = self.draw(st.integers(1, 3)) if not self.clamp else self.draw(st.integers(-1, 3))
-                L.append(f"{n}.blink({small(6)}, {t})" if self.draw(st.booleans()) else f"{n}.blink(duration_ms={small(6)}, times={t})"); self.state_dep += 1
+                if not self.clamp and self.draw(st.integers(0, 7)) == 0:
+                    t = self.draw(st.sampled_from([255, 256, 257, 300, 1000]))   # counts beyond a byte: nothing in the documentation caps them
+                    L.append(f"{n}.blink({small(1)}, {t})" if self.draw(st.booleans()) else f"{n}.blink(duration_ms={small(1)}, times={t})"); self.state_dep += 1
+                else:
+                    L.append(f"{n}.blink({small(6)}, {t})" if self.draw(st.booleans()) else f"{n}.blink(duration_ms={small(6)}, times={t})"); self.state_dep += 1
             elif o in ("fade_in", "fade_out"):
                 step = self.draw(st.sampled_from([50, 64, 100, 127, 255, 90])) if not self.clamp else self.draw(st.sampled_from([0, -5, 50, 300]))
                 L.append(f"{n}.{o}({step}, {small(3)})"); self.state_dep += 1
@@ -181,7 +185,10 @@ class M:
                 L.append(f"rgb.fade({c()}, {c()}, {c()}, {dur}, {steps})"); self.state_dep += 1
             else:
                 t = self.draw(st.integers(1, 3)) if not self.clamp else self.draw(st.integers(-1, 2))
-                L.append(f"rgb.blink({c()}, {c()}, {c()}, times={t}, delay_ms={small(5)})"); self.state_dep += 1
+                big = not self.clamp and self.draw(st.integers(0, 7)) == 0
+                if big:
+                    t = self.draw(st.sampled_from([255, 256, 300, 1000]))
+                L.append(f"rgb.blink({c()}, {c()}, {c()}, times={t}, delay_ms={small(1) if big else small(5)})"); self.state_dep += 1
         elif kind == "srv":
             a0, a1, p0, p1 = info
             o = self.draw(st.sampled_from(["write", "write", "write_us", "get", "get_us"]))
